@@ -21,8 +21,10 @@ FIRST = {
     "C01-5": "missed", "C01-6": "missed by C01 (caught by C08)", "C05-6": "missed", "C06-6": "missed",
     "C09-6": "missed", "C11-5": "missed", "C15-6": "missed", "C18-6": "missed", "C19-5": "missed",
     "C03-6": "no-failing-input-found", "C18-5": "no-failing-input-found",
+    "C03-8": "missed", "C09-8": "missed", "C12-8": "missed", "C14-7": "missed", "C15-8": "missed",
+    "C16-7": "missed by C16 (caught by C18)",
 }
-ALSO = {"C03-1": "C08", "C13-2": "C11", "C01-6": "C08"}
+ALSO = {"C03-1": "C08", "C13-2": "C11", "C01-6": "C08", "C16-7": "C18", "C03-8": "C01"}
 
 
 def run(seed, prop=None):
